@@ -171,63 +171,174 @@ def describe_row(kind, n):
 
 
 # ------------------------------------------------------------------------------------------------
-# oracle on the implementation's own operation lists (used only when the parser correspondence breaks)
+# oracle on the implementation's own tables and operation lists (Python, unverified; a *search* for a
+# failing row when a theorem or the correspondence breaks, and the only oracle in pre-screening mode
+# VERIF_REPO, where the shared Lean tables must not be regenerated)
 
-def impl_row_check(pid, C, pg, tables, n, exp_line, impl_prim_of):
-    """Clauses of row n evaluated on the operation lists printed by the implementation."""
-    hall, arith, settings, mt, mh = tables
-    o = C.model_symbol(exp_line)
-    if o is None:
-        return ["parse (implementation returns None or panics: %s)" % exp_line[:80]]
-    fails = []
-    ops, pops, gens = o["ops"], [(r, tuple(x % 12 for x in t), tr) for r, t, tr in o["pops"]], o["gens"]
-    if len(ops) > 1 and C.closure_cert(o["centering"], gens, ops) == (0, 0):
-        fails.append("closed")
+SCREEN = bool(os.environ.get("VERIF_REPO"))
+
+
+def impl_tables(reqs, exps):
+    """The tables as the running code reports them (harness `tables-gen` / `c16-gen` lines)."""
+    hall, arith, mt, mh, settings, ops, arithrep, ranges = {}, {}, {}, {}, {}, {}, {}, {}
+    for q, e in zip(reqs, exps):
+        t = q.split(" ")
+        if t[0] == "hallentry" and "|" in e:
+            f = e.split("|")
+            a = f[0].split()
+            hall[int(t[1])] = {"hall": int(a[0]), "number": int(a[1]), "arith": int(a[2]), "setting": f[1], "symbol": f[2],
+                               "centering": f[5]}
+        elif t[0] == "arithentry" and "|" in e:
+            f = e.split("|")
+            g = f[2].split()
+            arith[int(t[1])] = {"arith": int(f[0]), "geo": g[0], "bravais": g[1]}
+        elif t[0] == "magentry" and "|" in e:
+            f = e.split("|")
+            a, b, c = f[0].split(), f[2].split(), f[5].split()
+            mh[int(t[1])] = {"symbol": f[1], "uni": int(a[0])}
+            mt[int(t[1])] = {"uni": int(b[0]), "bns": f[3], "number": int(c[0]), "ct": int(c[1])}
+        elif t[0] == "settings":
+            settings[t[1]] = [int(x) for x in e.split()]
+        elif t[0] in ("hall", "mhall"):
+            ops[(t[0], q[len(t[0]) + 1:])] = e
+        elif t[0] == "arithrep":
+            arithrep[int(t[1])] = e
+        elif t[0] == "unirange":
+            ranges[int(t[1])] = e
+    return {"hall": hall, "arith": arith, "mt": mt, "mh": mh, "settings": settings, "ops": ops, "arithrep": arithrep,
+            "ranges": ranges}
+
+
+def closure_rots(C, gens):
+    seen, queue = {C.I3}, [C.I3]
+    while queue:
+        a = queue.pop()
+        for g in gens:
+            b = C.mm(a, g)
+            if b not in seen:
+                if len(seen) > 200:
+                    return sorted(seen)
+                seen.add(b)
+                queue.append(b)
+    return sorted(seen)
+
+
+def norm_prim(o):
+    return [(r, tuple(x % 12 for x in t), tr) for r, t, tr in o["pops"]]
+
+
+def impl_oracle(pid, C, pg, T):
+    """All clauses of the property on the implementation's data; returns [(row label, [clauses], detail)]."""
+    out = []
     slot = {(a, b): s for a, b, s in pg["rotTypes"]}
-    hist = [sum(1 for x in ops if slot.get(C.rtype(x[0])) == s) for s in range(10)]
+
+    def sym_ops(kind, sym):
+        e = T["ops"].get((kind, sym))
+        return C.model_symbol(e) if e else None
+
+    def hall_ops(h):
+        e = T["hall"].get(h)
+        return sym_ops("hall", e["symbol"]) if e else None
+    reps = {}
+    for k, e in T["arithrep"].items():
+        parts = e.split(" ; ")
+        if len(parts) == 2:
+            gens = [tuple(int(x) for x in g.split()) for g in parts[1].split(" | ") if g.strip()]
+            reps[k] = (gens, closure_rots(C, gens))
     if pid == "C16":
-        e = hall[n - 1]
-        a = arith[e["arith"] - 1] if 1 <= e["arith"] <= len(arith) else None
-        gi = pg["geoNames"].index(a["geo"]) if a and a["geo"] in pg["geoNames"] else None
-        if gi is None:
-            return fails + ["arithmetic-number"]
-        if len(ops) != sum(pg["geoHist"][gi]) or len({x[0] for x in ops}) != len(ops):
-            fails.append("b:order")
-        if hist != pg["geoHist"][gi]:
-            fails.append("c:histogram")
-        if o["centering"] != e["centering"]:
-            fails.append("d:centering")
-        rep = impl_prim_of(pg["arithRepHall"][e["arith"] - 1])
-        if rep is None or next(C.linear_conjugators([x[0] for x in pops], [x[0] for x in rep["pgens"]],
-                                                    [x[0] for x in rep["pops"]], limit=1), None) is None:
-            fails.append("e:arithmetic")
-        first = min(x["hall"] for x in hall if x["number"] == e["number"])
-        f = impl_prim_of(first)
-        fp = [(r, tuple(x % 12 for x in t), tr) for r, t, tr in f["pops"]] if f else None
-        if fp is None or C.affine_conjugator(pops, fp, f["pgens"]) is None:
-            fails.append("f:setting")
+        invs = {k: C.inv_vector(v[1], pg["rotTypes"]) for k, v in reps.items()}
+        for a in invs:
+            for b in invs:
+                if a < b and invs[a] == invs[b]:
+                    out.append((("arithmetic class", a), ["invariants"], f"representatives of classes {a} and {b} have equal invariant vectors"))
+        first = {}
+        for h in sorted(T["hall"]):
+            first.setdefault(T["hall"][h]["number"], h)
+        for h in sorted(T["hall"]):
+            e = T["hall"][h]
+            o = hall_ops(h)
+            if o is None:
+                out.append((("hall", h), ["a:parse"], str(T["ops"].get(("hall", e["symbol"])))[:200]))
+                continue
+            fails = []
+            ops, pops = o["ops"], norm_prim(o)
+            if len(ops) > 1 and C.closure_cert(o["centering"], o["gens"], ops) == (0, 0):
+                fails.append("a:closed")
+            a = T["arith"].get(e["arith"])
+            gi = pg["geoNames"].index(a["geo"]) if a and a["geo"] in pg["geoNames"] else None
+            if gi is None:
+                out.append((("hall", h), ["arithmetic-number"], json.dumps(e)))
+                continue
+            if len(ops) != sum(pg["geoHist"][gi]) or len({x[0] for x in ops}) != len(ops):
+                fails.append("b:order")
+            if [sum(1 for x in ops if slot.get(C.rtype(x[0])) == s) for s in range(10)] != pg["geoHist"][gi]:
+                fails.append("c:histogram")
+            if o["centering"] != e["centering"]:
+                fails.append("d:centering")
+            rp = reps.get(e["arith"])
+            if rp is None or next(C.linear_conjugators([x[0] for x in pops], rp[0], rp[1], limit=1), None) is None:
+                fails.append("e:arithmetic")
+            f = hall_ops(first[e["number"]])
+            if f is None or C.affine_conjugator(pops, norm_prim(f), f["pgens"]) is None:
+                fails.append("f:setting")
+            sp = T["settings"].get("spglib", [])
+            if not (1 <= e["number"] <= len(sp)) or sp[e["number"] - 1] != first[e["number"]]:
+                fails.append("h:spglib-is-smallest")
+            if fails:
+                out.append((("hall", h), fails, json.dumps(e)))
     else:
-        t = mt[n - 1]
-        n_un = sum(1 for x in ops if not x[2])
-        anti = [x for x in ops if x[2] and x[0] == C.I3]
-        if n_un == len(ops):
-            ct = 1
-        elif 2 * n_un != len(ops):
-            ct = 0
-        elif not anti:
-            ct = 3
-        else:
-            ct = 2 if C.eqv_mod(o["centering"], (C.I3, anti[0][1], False), (C.I3, (0, 0, 0), False)) else 4
-        if ct != t["ct"]:
-            fails.append("construct-type")
-        std = settings["STANDARD_HALL_NUMBERS"]
-        f = impl_prim_of(std[t["number"] - 1]) if 1 <= t["number"] <= len(std) else None
-        ref = [(x[0], x[1], False) for x in pops] if t["ct"] == 3 else [x for x in pops if not x[2]]
-        fp = [(r, tuple(x % 12 for x in tt), tr) for r, tt, tr in f["pops"]] if f else None
-        if fp is None or f["centering"] != o["centering"] or len({x[0] for x in ref}) != len(ref) or \
-                C.affine_conjugator(ref, fp, f["pgens"]) is None:
-            fails.append("reference")
-    return fails
+        std = T["settings"].get("standard", [])
+        sets = {}
+        for u in sorted(T["mh"]):
+            mh, t = T["mh"][u], T["mt"][u]
+            o = sym_ops("mhall", mh["symbol"])
+            if o is None:
+                out.append((("uni", u), ["parse"], str(T["ops"].get(("mhall", mh["symbol"])))[:200]))
+                continue
+            fails = []
+            ops, pops = o["ops"], norm_prim(o)
+            sets[u] = tuple(sorted(C.op_code(x) for x in pops))
+            if len(ops) > 1 and C.closure_cert(o["centering"], o["gens"], ops) == (0, 0):
+                fails.append("closed")
+            n_un = sum(1 for x in ops if not x[2])
+            anti = [x for x in ops if x[2] and x[0] == C.I3]
+            if n_un == len(ops):
+                ct = 1
+            elif 2 * n_un != len(ops) or len(anti) > 1:
+                ct = 0
+            elif not anti:
+                ct = 3
+            else:
+                ct = 2 if C.eqv_mod(o["centering"], (C.I3, anti[0][1], False), (C.I3, (0, 0, 0), False)) else 4
+            if ct != t["ct"]:
+                fails.append("construct-type")
+            f = hall_ops(std[t["number"] - 1]) if 1 <= t["number"] <= len(std) else None
+            ref = [(x[0], x[1], False) for x in pops] if t["ct"] == 3 else [x for x in pops if not x[2]]
+            if f is None or f["centering"] != o["centering"] or len({x[0] for x in ref}) != len(ref) or \
+                    C.affine_conjugator(ref, norm_prim(f), f["pgens"]) is None:
+                fails.append("reference")
+            if mh["uni"] != u or t["uni"] != u or not t["bns"].startswith(str(t["number"]) + "."):
+                fails.append("numbering")
+            if fails:
+                out.append((("uni", u), fails, json.dumps({"hall_symbol": mh, "type": t})))
+        # ranges: the implementation's uni_number_range against the number column
+        numbers = sorted({t["number"] for t in T["mt"].values()})
+        for n in range(1, 231):
+            us = [u for u in sorted(T["mt"]) if T["mt"][u]["number"] == n]
+            want = f"{us[0]} {us[-1]}" if us and us == list(range(us[0], us[-1] + 1)) else "non-contiguous"
+            fails = []
+            if T["ranges"].get(n) != want:
+                fails.append("range")
+            if sum(1 for u in us if T["mt"][u]["ct"] == 1) != 1 or sum(1 for u in us if T["mt"][u]["ct"] == 2) != 1:
+                fails.append("unique-type-1/2")
+            cs = [sets[u] for u in us if u in sets]
+            if len(set(cs)) != len(cs):
+                fails.append("distinct-operation-sets")
+            if fails:
+                out.append((("uni range of number", n), fails, f"uni_number_range({n}) = {T['ranges'].get(n)}, rows with number {n}: {want}"))
+        if len(numbers) != 230 or any(T["ranges"].get(n) != "none" for n in (-2, -1, 0, 231, 232, 233)):
+            out.append((("uni range of number", 0), ["range-count"], f"{len(numbers)} distinct numbers"))
+    return out
 
 
 # ------------------------------------------------------------------------------------------------
@@ -255,14 +366,14 @@ def run_tables(pid, tier, seed):
     okt, terr = vlib.translate()
     if not okt:
         broken.append("tools/translate.py failed: " + terr[-1500:])
-    okt1, terr1, _ = translate_c16(tables_only=True)
+    okt1, terr1, _ = (True, "", []) if SCREEN else translate_c16(tables_only=True)
     if not okt1:
         broken.append("tools/translate_c16.py (match-arm tables) failed: " + terr1[-1500:])
     okm, out = vlib.lake_build(["moyo_model"])
     if not okm:
         broken.append("moyo_model failed to build: " + out[-1500:])
     notes = []
-    if okm and okt and okt1:
+    if okm and okt and okt1 and not SCREEN:
         okt2, terr2, notes = translate_c16()
         if not okt2:
             broken.append("tools/translate_c16.py (certificates) failed: " + terr2[-1500:])
@@ -293,7 +404,12 @@ def run_tables(pid, tier, seed):
     # ---- exhaustive correspondence: parser on all table strings, table rows, match-arm tables
     C = pg = certs = None
     try:
-        C, pg, certs = load_certs()
+        if SCREEN:
+            import translate_c16 as C
+            pg = C.translate_point_group()
+            cov["screening_mode"] = "VERIF_REPO is set: the shared Lean tables are not regenerated; rows are judged by the Python oracle on the implementation's data"
+        else:
+            C, pg, certs = load_certs()
     except SystemExit:
         broken.append("certificates could not be recomputed (translator failed)")
     cases = os.path.join(vlib.WORK, f"{pid.lower()}_tables_{seed}.cases")
@@ -339,28 +455,13 @@ def run_tables(pid, tier, seed):
                           for i in (good[:1] + good[len(good) // 2:len(good) // 2 + 1] + good[-1:])]
     else:
         cov["rows_checked"] = 0
-    # ---- parser correspondence broken: judge the rows on the implementation's own operation lists
+    # ---- something broke (or pre-screening): judge every row on the implementation's own tables and operation lists
     impl_fail = []
-    if mism and C is not None:
-        tables = C.load_tables()
-        cmd = "hall " if pid == "C16" else "mhall "
-        exp_of = {q: e for q, e in zip(reqs, exps)}
-
-        def impl_prim_of(h):
-            if not 1 <= h <= len(tables[0]):
-                return None
-            q = "hall " + tables[0][h - 1]["symbol"]
-            e = exp_of.get(q) or vlib.harness_eval([q], f"{pid.lower()}_one", item_timeout=20)[0]
-            return C.model_symbol(e)
-        syms = [e["symbol"] for e in (tables[0] if pid == "C16" else tables[4])]
-        for i in mism[:200]:
-            if reqs[i].startswith(cmd):
-                sym = reqs[i][len(cmd):]
-                for n, s in enumerate(syms, 1):
-                    if s == sym:
-                        fl = impl_row_check(pid, C, pg, tables, n, exps[i], impl_prim_of)
-                        if fl:
-                            impl_fail.append((n, sym, fl, exps[i]))
+    if (mism or broken or SCREEN) and C is not None and pg is not None:
+        allr, alle = vlib.read_cases(cases)
+        r2, e2 = vlib.read_cases(cases2)
+        impl_fail = impl_oracle(pid, C, pg, impl_tables(allr + r2, alle + e2))
+        cov["implementation_rows_failing"] = len(impl_fail)
     cov["wall_tables_s"] = round(time.time() - t0, 1)
 
     # ---- decide
@@ -373,23 +474,55 @@ def run_tables(pid, tier, seed):
             text += ["", "also:"] + broken
         run.violation("failing_row.txt", "\n".join(text), key=f"row:{kind.replace(' ', '-')}:{n}")
     elif impl_fail:
-        n, sym, fl, e = impl_fail[0]
-        run.violation("failing_row_impl.txt", f"symbol {sym!r} (row {n}): on the implementation's own operation list the clauses {fl} fail\n"
-                      f"implementation output: {e}\nall: " + "\n".join(f"  row {a} {b!r}: {c}" for a, b, c, _ in impl_fail[:50]))
+        (kind, n), fl, detail = impl_fail[0]
+        text = [f"{kind} {n}: fails: {', '.join(fl)}   (judged on the implementation's own tables and operation lists)",
+                "table row: " + detail, "", f"all failing rows ({len(impl_fail)}):"] + \
+               [f"  {k} {m}: {', '.join(f)}" for (k, m), f, _ in impl_fail[:100]]
+        if broken:
+            text += ["", "also:"] + broken
+        run.violation("failing_row_impl.txt", "\n".join(text), key=f"row:{kind.replace(' ', '-')}:{n}")
     elif mism or broken:
         lines = list(broken)
         if mism:
             lines.append(f"model/implementation correspondence broken on {len(mism)} of {len(reqs)} cases; first:")
             for i in mism[:10]:
                 lines.append(f"  request: {reqs[i]}\n    impl : {exps[i][:400]}\n    model: {outs[i][:400]}")
-            lines.append("every table row still satisfies all clauses (model's and implementation's operation lists)")
+            lines.append("every table row still satisfies all clauses (natively on the model's lists, and on the implementation's own tables and lists)")
         run.violation("unchecked.txt", "\n".join(lines), no_input=True)
     return run.finish()
+
+
+def replay_impl(pid, path, txt):
+    """Replay of a row judged on the implementation's data."""
+    import translate_c16 as C
+    pg = C.translate_point_group()
+    cases = os.path.join(vlib.WORK, f"{pid.lower()}_replay.cases")
+    cases2 = os.path.join(vlib.WORK, f"{pid.lower()}_replay_pg.cases")
+    vlib.harness(["tables-gen", cases])
+    vlib.harness(["c16-gen", cases2])
+    a, b = vlib.read_cases(cases)
+    c, d = vlib.read_cases(cases2)
+    res = impl_oracle(pid, C, pg, impl_tables(a + c, b + d))
+    m = re.match(r"(hall|arithmetic class|uni range of number|uni) (\d+):", txt)
+    want = (m.group(1), int(m.group(2))) if m else None
+    rc = 0
+    for lab, fl, detail in res:
+        if want is None or lab == want:
+            print(f"{lab[0]} {lab[1]}: fails: {', '.join(fl)}")
+            print("table row:", detail)
+            rc = 1
+    if rc == 0:
+        print("row passes on the implementation's data")
+    else:
+        print(f"VIOLATION property={pid} replay={path}")
+    return rc
 
 
 def replay_tables(pid, path):
     txt = open(path).read()
     vlib.build_harness()
+    if SCREEN or "judged on the implementation's own tables" in txt:
+        return replay_impl(pid, path, txt)
     vlib.translate()
     translate_c16(tables_only=True)
     vlib.lake_build(["moyo_model"])
